@@ -2,14 +2,16 @@
 
     - day / week units: G k = origin + k*q, for every q >= 1 and every index range (no bound);
     - month / quarter / year units: G k = month_end (month_id origin + k*q) for an origin that is a
-      month end of 1970-2100, indices such that the month ids stay in 0..1571.  The calendar facts
-      are kernel computations over all 1572 month ids and all 47 847 ordinals of 1970-01-01 ..
-      2100-12-31 (the bound is part of every statement).
-    The bridge from the source's float add_months to Calendar.addm on these dates is theorem
-    C12_add_months_agrees_with_Z_calendar of the C12 check. *)
+      month end of ANY year >= 1 (ordinal >= 1), every q >= 1, no upper bound on dates; the lower end of
+      the index range is where month ids reach MINID = -23628 (January of year 1).  The calendar
+      facts are the unbounded, axiom-free theorems of wp-basis's Proofs/CalendarP.v.
+    TIE: Calendar.addm equals the source's float add_months only where the C12 bridge theorem
+    C12_add_months_agrees_with_Z_calendar says so (month-aligned dates, results in 1970-2100; known
+    finding F10 before 1970); outside that range these theorems are about the Z-model and the per-run
+    correspondence is the tie. *)
 From Coq Require Import ZArith List Bool Lia ZifyBool.
 From Bermuda Require Import Model.Base Lib.Calendar Model.Summarize Model.Basis Model.Aggregate
-  Proofs.Aggregate Proofs.AggregateGrid.
+  Proofs.CalendarP Proofs.Aggregate Proofs.AggregateGrid.
 Import ListNotations.
 Local Open Scope Z_scope.
 
@@ -38,161 +40,118 @@ Proof.
     + intros (j & _ & ->). replace (origin + j * q - origin) with (j * q) by ring. apply Z.mod_mul. lia.
 Qed.
 
-(* ================================================================== calendar facts, 1970-2100 *)
-Definition LO : Z := 719163.      (* 1970-01-01 *)
-Definition HI : Z := 767009.      (* 2100-12-31 *)
-
-Fixpoint all_from (n : nat) (i : Z) (p : Z -> bool) : bool :=
-  match n with O => true | S k => if p i then all_from k (i + 1) p else false end.
-Lemma all_from_spec n : forall i p, all_from n i p = true -> forall j, i <= j < i + Z.of_nat n -> p j = true.
-Proof.
-  induction n as [|n IH]; intros i p H j Hj; [lia|]. cbn [all_from] in H.
-  destruct (p i) eqn:E; [|discriminate].
-  destruct (Z.eq_dec j i) as [->|Hne]; [exact E|]. apply (IH (i + 1) p H). lia.
-Qed.
-Definition ord_ok (o : Z) : bool :=
-  let i := month_id o in
-  (0 <=? i) && (i <=? 1571) && (month_start i <=? o) && (o <=? month_end i)
-  && (if is_month_end o then o =? month_end i else true).
-Lemma ords_ok : all_from (Z.to_nat 47847) 719163 ord_ok = true.
-Proof. vm_cast_no_check (eq_refl true). Qed.
-
-(* every date of 1970-01-01 .. 2100-12-31 lies in the month its month id names *)
-Theorem ord_facts d : LO <= d <= HI ->
-  0 <= month_id d <= 1571 /\ month_start (month_id d) <= d <= month_end (month_id d) /\
-  (is_month_end d = true -> d = month_end (month_id d)).
-Proof.
-  unfold LO, HI. intros Hd. pose proof (all_from_spec _ _ _ ords_ok d ltac:(lia)) as H.
-  unfold ord_ok in H. cbv zeta in H. rewrite !andb_true_iff in H.
-  destruct H as [[[[H1 H2] H3] H4] H5]. repeat split; try lia; try (intros E; rewrite E in H5; lia).
-Qed.
-Lemma month_end_le i j : 0 <= i -> j <= 1572 -> i <= j -> month_end i <= month_end j.
-Proof.
-  intros Hi Hj Hij. destruct (Z.eq_dec i j) as [->|Hne]; [lia|].
-  pose proof (month_end_increasing i j Hi Hj ltac:(lia)). lia.
-Qed.
-Lemma month_end_lt_inv i j : 0 <= i <= 1572 -> 0 <= j <= 1572 -> month_end i < month_end j -> i < j.
-Proof.
-  intros Hi Hj H. destruct (Z_lt_le_dec i j) as [|Hge]; [assumption|].
-  pose proof (month_end_le j i ltac:(lia) ltac:(lia) Hge). lia.
-Qed.
-Lemma month_end_0 : month_end 0 = 719193. Proof. vm_compute. reflexivity. Qed.
-Lemma month_end_1571 : month_end 1571 = 767009. Proof. vm_compute. reflexivity. Qed.
-Lemma month_end_range i : 0 <= i <= 1571 -> LO <= month_end i <= HI.
-Proof.
-  intros Hi. pose proof (month_end_le 0 i ltac:(lia) ltac:(lia) ltac:(lia)).
-  pose proof (month_end_le i 1571 ltac:(lia) ltac:(lia) ltac:(lia)).
-  rewrite month_end_0 in *. rewrite month_end_1571 in *. unfold LO, HI. lia.
-Qed.
-Lemma month_end_succ i : month_end i + 1 = month_start (i + 1).
+(* ================================================================== month ends, any year >= 1 *)
+Lemma me_le i j : i <= j -> month_end i <= month_end j.
+Proof. intros H. unfold month_end. pose proof (CalendarP.month_start_mono (i + 1) (j + 1)). lia. Qed.
+Lemma me_lt i j : i < j -> month_end i < month_end j.
+Proof. intros H. unfold month_end. pose proof (CalendarP.month_start_strict_mono (i + 1) (j + 1)). lia. Qed.
+Lemma me_lt_inv i j : month_end i < month_end j -> i < j.
+Proof. intros H. destruct (Z_lt_le_dec i j) as [|Hge]; [assumption|]. pose proof (me_le j i Hge). lia. Qed.
+Lemma me_succ i : month_end i + 1 = month_start (i + 1).
 Proof. unfold month_end. lia. Qed.
+Lemma me_ge_1 i : MINID <= i -> 1 <= month_end i.
+Proof. intros H. pose proof (CalendarP.month_start_ge_1 i H). pose proof (CalendarP.month_start_le_end i). lia. Qed.
 
 (* ================================================================== month / quarter / year units *)
 Definition month_G (origin q k : Z) : Z := month_end (month_id origin + k * q).
 Definition month_kidx (origin q d : Z) : Z := (month_id d - (month_id origin + 1)) / q.
-Definition month_klo (origin q : Z) : Z := - (month_id origin / q).
-Definition month_khi (origin q : Z) : Z := (1571 - month_id origin) / q.
+(* the lowest index whose month id is still a month of year >= 1 *)
+Definition month_klo (origin q : Z) : Z := - ((month_id origin - MINID) / q).
 
-(* the origin is a month end of 1970-2100 and at least one whole window after it stays in range *)
+(* the origin is a month end (of any year >= 1) *)
 Definition month_origin_ok (origin q : Z) : Prop :=
-  1 <= q /\ LO <= origin <= HI /\ is_month_end origin = true /\ month_id origin + q <= 1571.
+  1 <= q /\ 1 <= origin /\ is_month_end origin = true.
 
 Section MonthGrid.
   Variables (origin q : Z).
   Hypothesis Hok : month_origin_ok origin q.
   Let o := month_id origin.
   Let klo := month_klo origin q.
-  Let khi := month_khi origin q.
 
-  Lemma month_idx_range k : klo <= k <= khi -> 0 <= o + k * q <= 1571.
+  Lemma month_idx_range k : klo <= k -> MINID <= o + k * q.
   Proof.
-    destruct Hok as (Hq & Hr & Hme & Hw). destruct (ord_facts origin Hr) as ((Ho1 & Ho2) & _).
-    fold o in Ho1, Ho2, Hw. unfold klo, khi, month_klo, month_khi. fold o. intros Hk.
-    pose proof (Z.mul_div_le o q ltac:(lia)). pose proof (Z.mul_div_le (1571 - o) q ltac:(lia)).
-    split; nia.
+    destruct Hok as (Hq & Hr & Hme). pose proof (CalendarP.month_id_ge_MINID origin Hr) as Ho. fold o in Ho.
+    unfold klo, month_klo. fold o. intros Hk.
+    pose proof (Z.mul_div_le (o - MINID) q ltac:(lia)). nia.
   Qed.
 
-  Theorem month_grid_ok : grid_ok (RMonth q) origin (month_G origin q) klo khi (month_kidx origin q).
+  Theorem month_grid_ok khi : 0 < khi ->
+    grid_ok (RMonth q) origin (month_G origin q) klo khi (month_kidx origin q).
   Proof.
-    pose proof Hok as (Hq & Hr & Hme & Hw). destruct (ord_facts origin Hr) as ((Ho1 & Ho2) & _ & Hoe).
-    fold o in Ho1, Ho2, Hw.
+    intros Hhi. pose proof Hok as (Hq & Hr & Hme).
+    pose proof (CalendarP.month_id_ge_MINID origin Hr) as Ho. fold o in Ho.
     assert (Hlo : klo <= 0).
-    { unfold klo, month_klo. fold o. pose proof (Z.div_pos o q ltac:(lia) ltac:(lia)). lia. }
-    assert (Hhi : 0 < khi).
-    { unfold khi, month_khi. fold o. pose proof (Z.div_le_lower_bound (1571 - o) q 1 ltac:(lia) ltac:(lia)). lia. }
+    { unfold klo, month_klo. fold o. pose proof (Z.div_pos (o - MINID) q ltac:(lia) ltac:(lia)). lia. }
     assert (HG : forall k, month_G origin q k = month_end (o + k * q)) by reflexivity.
     assert (Hstep : forall k, klo <= k < khi -> delta (RMonth q) false (month_G origin q k) = month_G origin q (k + 1)).
-    { intros k Hk. rewrite !HG. cbn [delta]. rewrite addm_month_end by (apply month_idx_range; lia). f_equal. ring. }
+    { intros k Hk. rewrite !HG. cbn [delta]. rewrite CalendarP.addm_month_end by (apply month_idx_range; lia). f_equal. ring. }
     assert (Hmono : forall k, klo <= k < khi -> month_G origin q k < month_G origin q (k + 1)).
-    { intros k Hk. rewrite !HG. pose proof (month_idx_range k ltac:(lia)). pose proof (month_idx_range (k + 1) ltac:(lia)).
-      apply month_end_increasing; nia. }
-    (* dates between the first and the last grid point are dates of 1970-2100 *)
-    assert (Hrange : forall d, month_G origin q klo < d <= month_G origin q khi -> LO <= d <= HI).
-    { intros d Hd. rewrite !HG in Hd.
-      pose proof (month_end_range _ (month_idx_range klo ltac:(lia))).
-      pose proof (month_end_range _ (month_idx_range khi ltac:(lia))). lia. }
-    (* the month id of such a date, relative to the grid *)
+    { intros k Hk. rewrite !HG. apply me_lt. nia. }
+    (* a date after the first grid point is a date of year >= 1 *)
+    assert (Hpos : forall d, month_G origin q klo < d -> 1 <= d).
+    { intros d Hd. rewrite HG in Hd. pose proof (me_ge_1 _ (month_idx_range klo ltac:(lia))). lia. }
     assert (Hid : forall d, month_G origin q klo < d <= month_G origin q khi ->
-                  0 <= month_id d <= 1571 /\ o + klo * q < month_id d <= o + khi * q /\
+                  o + klo * q < month_id d <= o + khi * q /\
                   month_start (month_id d) <= d <= month_end (month_id d)).
-    { intros d Hd. destruct (ord_facts d (Hrange d Hd)) as (Hi & Hin & _). rewrite !HG in Hd.
-      pose proof (month_idx_range klo ltac:(lia)) as R1. pose proof (month_idx_range khi ltac:(lia)) as R2.
-      split; [exact Hi|]. split; [|exact Hin]. split.
-      - apply month_end_lt_inv; lia.
+    { intros d Hd. pose proof (CalendarP.month_bracket d (Hpos d ltac:(lia))) as Hin. rewrite !HG in Hd.
+      split; [|exact Hin]. split.
+      - apply me_lt_inv. lia.
       - destruct (Z_le_gt_dec (month_id d) (o + khi * q)) as [|Hgt]; [assumption|]. exfalso.
-        pose proof (month_end_le (o + khi * q) (month_id d - 1) ltac:(lia) ltac:(lia) ltac:(lia)).
-        pose proof (month_end_succ (month_id d - 1)). replace (month_id d - 1 + 1) with (month_id d) in * by lia. lia. }
+        pose proof (me_le (o + khi * q) (month_id d - 1) ltac:(lia)).
+        pose proof (me_succ (month_id d - 1)). replace (month_id d - 1 + 1) with (month_id d) in * by lia. lia. }
     constructor.
-    - (* G 0 = origin *) rewrite HG. replace (o + 0 * q) with o by ring. symmetry. apply Hoe. exact Hme.
+    - (* G 0 = origin *) rewrite HG. replace (o + 0 * q) with o by ring. symmetry.
+      apply (CalendarP.is_month_end_iff origin Hr). exact Hme.
     - exact Hlo.
     - exact Hhi.
     - exact Hstep.
-    - (* back *) intros k Hk. rewrite !HG. cbn [delta]. rewrite addm_month_end by (apply month_idx_range; lia). f_equal. ring.
+    - (* back *) intros k Hk. rewrite !HG. cbn [delta].
+      rewrite CalendarP.addm_month_end by (apply month_idx_range; lia). f_equal. ring.
     - exact Hmono.
     - (* window index *)
-      intros d Hd. destruct (Hid d Hd) as (Hi & (Hi1 & Hi2) & Hin). unfold month_kidx. fold o.
+      intros d Hd. destruct (Hid d Hd) as ((Hi1 & Hi2) & Hin). unfold month_kidx. fold o.
       set (a := month_id d - (o + 1)).
       pose proof (Z.mul_div_le a q ltac:(lia)) as H1. pose proof (Z.mul_succ_div_gt a q ltac:(lia)) as H2.
       assert (Hk1 : klo <= a / q) by (apply Z.div_le_lower_bound; [lia|]; subst a; nia).
       assert (Hk2 : a / q < khi) by (apply Z.div_lt_upper_bound; [lia|]; subst a; nia).
-      split; [lia|]. rewrite !HG.
-      pose proof (month_idx_range (a / q) ltac:(lia)) as R1. pose proof (month_idx_range (a / q + 1) ltac:(lia)) as R2.
-      split.
-      + pose proof (month_end_le (o + a / q * q) (month_id d - 1) ltac:(lia) ltac:(lia) ltac:(subst a; nia)).
-        pose proof (month_end_succ (month_id d - 1)). replace (month_id d - 1 + 1) with (month_id d) in * by lia. lia.
-      + pose proof (month_end_le (month_id d) (o + (a / q + 1) * q) ltac:(lia) ltac:(lia) ltac:(subst a; nia)). lia.
+      split; [lia|]. rewrite !HG. split.
+      + pose proof (me_le (o + a / q * q) (month_id d - 1) ltac:(subst a; nia)).
+        pose proof (me_succ (month_id d - 1)). replace (month_id d - 1 + 1) with (month_id d) in * by lia. lia.
+      + pose proof (me_le (month_id d) (o + (a / q + 1) * q) ltac:(subst a; nia)). lia.
     - (* window_of *)
       intros d _. cbn [window_of]. cbv zeta. unfold month_kidx, month_G. fold o.
-      rewrite month_end_succ. f_equal; f_equal; ring.
+      rewrite me_succ. f_equal; f_equal; ring.
     - (* on_grid *)
-      intros e He. destruct (Hid e He) as (Hi & (Hi1 & Hi2) & Hin). cbn [on_grid]. fold o.
+      intros e He. destruct (Hid e He) as ((Hi1 & Hi2) & Hin). cbn [on_grid]. fold o.
       rewrite andb_true_iff, Z.eqb_eq. split.
-      + intros [Hm Hmod]. destruct (ord_facts e (Hrange e He)) as (_ & _ & Hee). specialize (Hee Hm).
+      + intros [Hm Hmod]. pose proof (proj1 (CalendarP.is_month_end_iff e (Hpos e ltac:(lia))) Hm) as Hee.
         exists ((month_id e - o) / q).
         pose proof (Z.div_mod (month_id e - o) q ltac:(lia)) as Hdm. rewrite Hmod in Hdm.
         split; [nia|]. rewrite HG, Hee at 1. f_equal. nia.
-      + intros (j & Hj & ->). rewrite HG. pose proof (month_idx_range j Hj) as Rj.
-        destruct (month_end_facts _ Rj) as (E1 & E2 & _). rewrite E1, E2. split; [reflexivity|].
+      + intros (j & Hj & ->). rewrite HG. pose proof (month_idx_range j ltac:(lia)) as Rj.
+        rewrite CalendarP.is_month_end_month_end, CalendarP.month_id_month_end by exact Rj. split; [reflexivity|].
         replace (o + j * q - o) with (j * q) by ring. apply Z.mod_mul. lia.
   Qed.
 
-  (* a sufficient, origin-independent description of the date range *)
-  Lemma month_range_sufficient d :
-    q <= 786 -> month_end (q - 1) < d <= month_end (1571 - q) ->
-    month_G origin q klo < d < month_G origin q khi.
+  (* a sufficient, origin-independent lower bound on the dates: after the first q months of year 1 *)
+  Lemma month_range_lower d : month_end (MINID + q - 1) < d -> month_G origin q klo < d.
   Proof.
-    pose proof Hok as (Hq & Hr & Hme & Hw). destruct (ord_facts origin Hr) as ((Ho1 & Ho2) & _).
-    fold o in Ho1, Ho2, Hw. intros Hq2 Hd. unfold month_G. fold o.
-    pose proof (month_idx_range klo ltac:(unfold klo, khi, month_klo, month_khi; fold o;
-      pose proof (Z.div_pos o q ltac:(lia) ltac:(lia)); pose proof (Z.div_pos (1571 - o) q ltac:(lia) ltac:(lia)); lia)) as R1.
-    pose proof (month_idx_range khi ltac:(unfold klo, khi, month_klo, month_khi; fold o;
-      pose proof (Z.div_pos o q ltac:(lia) ltac:(lia)); pose proof (Z.div_pos (1571 - o) q ltac:(lia) ltac:(lia)); lia)) as R2.
-    assert (o + klo * q <= q - 1).
-    { unfold klo, month_klo. fold o. pose proof (Z.mod_pos_bound o q ltac:(lia)). pose proof (Z.div_mod o q ltac:(lia)). nia. }
-    assert (1572 - q <= o + khi * q).
-    { unfold khi, month_khi. fold o. pose proof (Z.mod_pos_bound (1571 - o) q ltac:(lia)).
-      pose proof (Z.div_mod (1571 - o) q ltac:(lia)). nia. }
-    pose proof (month_end_le (o + klo * q) (q - 1) ltac:(lia) ltac:(lia) ltac:(lia)).
-    pose proof (month_end_increasing (1571 - q) (o + khi * q) ltac:(lia) ltac:(lia) ltac:(lia)). lia.
+    pose proof Hok as (Hq & Hr & Hme). pose proof (CalendarP.month_id_ge_MINID origin Hr) as Ho. fold o in Ho.
+    intros Hd. unfold month_G. fold o.
+    assert (o + klo * q <= MINID + q - 1).
+    { unfold klo, month_klo. fold o. pose proof (Z.mod_pos_bound (o - MINID) q ltac:(lia)).
+      pose proof (Z.div_mod (o - MINID) q ltac:(lia)). nia. }
+    pose proof (me_le (o + klo * q) (MINID + q - 1) ltac:(lia)). lia.
   Qed.
 End MonthGrid.
+
+(* resolution_delta of a month end is the month end q months later / earlier, windows start the day
+   after a month end -- for every month of year >= 1 *)
+Theorem month_window_unbounded i q : MINID <= i ->
+  delta (RMonth q) false (month_end i) = month_end (i + q) /\
+  delta (RMonth q) true (month_end i) = month_end (i - q) /\
+  month_end i + 1 = month_start (i + 1).
+Proof.
+  intros Hi. cbn [delta]. rewrite !CalendarP.addm_month_end by exact Hi. repeat split; try (f_equal; lia).
+  apply me_succ.
+Qed.
